@@ -28,7 +28,8 @@ RECURSIVE FirstBad(_, _, _)
 FirstBad(r, exp, i) ==
   IF i > Len(r.obs) THEN "ok"
   ELSE LET o == r.obs[i]  e == IF o.only = 0 THEN exp ELSE {p \in exp : p[1] = o.only} IN
-       IF Cardinality(Pairs(o)) # Len(o.inv) THEN "C04: a handler ran twice for one start tag (" \o o.variant \o ")"
+       IF "failed" \in DOMAIN o THEN "C04: a supported selector was refused or the run failed (" \o o.failed \o ")"
+       ELSE IF Cardinality(Pairs(o)) # Len(o.inv) THEN "C04: a handler ran twice for one start tag (" \o o.variant \o ")"
        ELSE IF \E p \in Pairs(o) : p \notin e THEN "C04: handler ran for a start tag the selector does not match (" \o o.variant \o ")"
        ELSE IF \E p \in e : p \notin Pairs(o) THEN "C04: handler did not run for a start tag the selector matches (" \o o.variant \o ")"
        ELSE FirstBad(r, exp, i + 1)
